@@ -151,4 +151,16 @@ theorem event_accepted_rebuild (ev : EventSpec d) (h : ¬ eventRejected ev) (hk 
   obtain ⟨h8a, h8b⟩ := h8 hk
   exact ⟨h7 hk, h8a, h8b⟩
 
+/-- the sign hypotheses of `tracker_init_ok` on shares and factor are what the validators establish: a rebuilding event
+    that the constructors accept starts with non-negative ledgers (before the repair F37 the code accepted negative
+    shares adding up to 1 and non-positive factors, and `tracker_init_ok` could not be applied to them) -/
+theorem tracker_init_ok_accepted (tb : Table d) (mf : Rat) (L : Nat) (ev : EventSpec d)
+    (hz : ∀ i j, 0 ≤ tb.Z i j) (hy : ∀ i cc, 0 ≤ tb.Y i cc)
+    (hh : ∀ h, ev.house = some h → ∀ c, 0 ≤ h c) (hemf : 0 < ev.emf) (hmf : 0 < mf)
+    (hacc : ¬ eventRejected ev) (hk : ev.kind = .rebuild) :
+    TrackerOK (trackerInit tb mf L ev) := by
+  obtain ⟨htau, _, _, himp, _⟩ := event_accepted ev hacc
+  obtain ⟨_, hsh, hf⟩ := event_accepted_rebuild ev hacc hk
+  exact tracker_init_ok tb mf L ev hz hy himp hh hsh (le_of_lt hf) hemf hmf htau
+
 end Boario
